@@ -105,51 +105,61 @@ def main() -> int:
                 continue
             if a["a"] != "call" or res.get("action_exc"):
                 continue
-            x = a["x"]
-            w = dict(wb, module=a["module"], args=a["args"], x=x)
-            caps = {}
-            for variant, vr in res.items():
-                if vr.get("missing"):
-                    continue
-                run.ev.count("calls")
-                reqs = vr.get("requests") or []
-                if vr.get("exc") and not reqs:
-                    if pkg_defect and vr["exc"]["type"] in ("ModuleNotFoundError", "ImportError", "TypeError", "AttributeError", "KeyError", "ValueError", "NameError"):
-                        run.vd.violation("exception:package_with_unresolved_imports", f"{a['module']}.{variant} raised {vr['exc']['type']} in a package whose modules do not all import (C01 finding)", dict(w, variant=variant))
+            # follow-up calls made on the same client are judged like calls of their own (against their own expectations)
+            units = [(a, res)]
+            for fi_, fu_ in enumerate(a.get("followups") or []):
+                sub = {}
+                for variant, vr in res.items():
+                    if isinstance(vr, dict) and isinstance(vr.get("followups"), list) and fi_ < len(vr["followups"]):
+                        sub[variant] = vr["followups"][fi_]
+                units.append((fu_, sub))
+                run.ev.count("followup_calls_on_a_used_client")
+            for a, res in units:
+                x = a["x"]
+                w = dict(wb, module=a["module"], args=a["args"], x=x)
+                caps = {}
+                for variant, vr in res.items():
+                    if vr.get("missing"):
                         continue
-                    if vr["exc"]["type"] == "UnboundLocalError" and not re.search(r"local variable '[\x00-\x7f]*'", vr["exc"]["msg"]):
-                        run.vd.violation("exception:UnboundLocalError:caseless_class_name_equals_module_local", f"{a['module']}.{variant}: {vr['exc']['msg'][:120]}", dict(w, variant=variant))
+                    run.ev.count("calls")
+                    reqs = vr.get("requests") or []
+                    if vr.get("exc") and not reqs:
+                        if pkg_defect and vr["exc"]["type"] in ("ModuleNotFoundError", "ImportError", "TypeError", "AttributeError", "KeyError", "ValueError", "NameError"):
+                            run.vd.violation("exception:package_with_unresolved_imports", f"{a['module']}.{variant} raised {vr['exc']['type']} in a package whose modules do not all import (C01 finding)", dict(w, variant=variant))
+                            continue
+                        if vr["exc"]["type"] == "UnboundLocalError" and not re.search(r"local variable '[\x00-\x7f]*'", vr["exc"]["msg"]):
+                            run.vd.violation("exception:UnboundLocalError:caseless_class_name_equals_module_local", f"{a['module']}.{variant}: {vr['exc']['msg'][:120]}", dict(w, variant=variant))
+                            continue
+                        run.vd.violation(exc_key(x, vr["exc"], variant), f"{a['module']}.{variant} raised {vr['exc']['type']}: {vr['exc']['msg'][:120]} at {vr['exc'].get('where')} (no request sent)", dict(w, variant=variant))
                         continue
-                    run.vd.violation(exc_key(x, vr["exc"], variant), f"{a['module']}.{variant} raised {vr['exc']['type']}: {vr['exc']['msg'][:120]} at {vr['exc'].get('where')} (no request sent)", dict(w, variant=variant))
-                    continue
-                if len(reqs) != 1:
-                    run.vd.violation("request_count", f"{a['module']}.{variant} sent {len(reqs)} requests", dict(w, variant=variant))
-                    continue
-                run.ev.count("requests_checked")
-                for eff, det in expect.check_request(reqs[0], x):
-                    if capture and eff.split(":")[0] in ("extra", "missing", "wrong_slot"):
-                        run.vd.violation("captured_name:derived_local_captures_parameter", f"{a['module']}.{variant}: {det}", dict(w, variant=variant))
+                    if len(reqs) != 1:
+                        run.vd.violation("request_count", f"{a['module']}.{variant} sent {len(reqs)} requests", dict(w, variant=variant))
                         continue
-                    bodyish = 'body' in eff or 'form' in eff or 'part' in eff or 'content_type' in eff
-                    if bodyish and (x.get("body") or {}).get("ambiguous_dispatch"):
-                        run.vd.violation("multi_body_same_runtime_type", f"{a['module']}.{variant}: {det}", dict(w, variant=variant, capture=reqs[0]))
-                        continue
-                    fl = (x.get("body") or {}).get("flags") or []
-                    if bodyish and fl:
-                        run.vd.violation(f"{eff.split(':')[0]}:{one_flag(fl)}", f"{a['module']}.{variant}: {det}", dict(w, variant=variant, capture=reqs[0]))
-                        continue
-                    run.vd.violation(f"{eff}:{body_class(x) if bodyish else 'params'}", f"{a['module']}.{variant}: {det}", dict(w, variant=variant, capture=reqs[0]))
-                caps[variant] = norm_capture(reqs[0])
-                sig = ("C03", tuple(sorted(f"{loc}:{expect.kind_of(v)}" for loc in x["wire"] for v in x["wire"][loc].values())), body_class(x), x["security"], bool(x["client"].get("auth")))
-                run.ev.seen(sig)
-            for va, vb in (("sync_detailed", "asyncio_detailed"), ("sync", "asyncio")):
-                if va in caps and vb in caps and caps[va] != caps[vb]:
-                    run.vd.violation("sync_async_differ", f"{a['module']}: {va} and {vb} sent different requests", dict(w, a=caps[va], b=caps[vb]))
-                elif va in caps and vb in caps:
-                    run.ev.count("sync_async_pairs_equal")
-            if caps and not run.ev.samples:
-                c = res[next(iter(caps))]["requests"][0]
-                run.ev.sample({"operation": f"{x['method'].upper()} {x['path']}", "wire_args": x["wire"], "body": x.get("body"), "captured": {"url": c["url"], "headers": c["headers"][5:], "content_b64": c["content"][:120]}})
+                    run.ev.count("requests_checked")
+                    for eff, det in expect.check_request(reqs[0], x):
+                        if capture and eff.split(":")[0] in ("extra", "missing", "wrong_slot"):
+                            run.vd.violation("captured_name:derived_local_captures_parameter", f"{a['module']}.{variant}: {det}", dict(w, variant=variant))
+                            continue
+                        bodyish = 'body' in eff or 'form' in eff or 'part' in eff or 'content_type' in eff
+                        if bodyish and (x.get("body") or {}).get("ambiguous_dispatch"):
+                            run.vd.violation("multi_body_same_runtime_type", f"{a['module']}.{variant}: {det}", dict(w, variant=variant, capture=reqs[0]))
+                            continue
+                        fl = (x.get("body") or {}).get("flags") or []
+                        if bodyish and fl:
+                            run.vd.violation(f"{eff.split(':')[0]}:{one_flag(fl)}", f"{a['module']}.{variant}: {det}", dict(w, variant=variant, capture=reqs[0]))
+                            continue
+                        run.vd.violation(f"{eff}:{body_class(x) if bodyish else 'params'}", f"{a['module']}.{variant}: {det}", dict(w, variant=variant, capture=reqs[0]))
+                    caps[variant] = norm_capture(reqs[0])
+                    sig = ("C03", tuple(sorted(f"{loc}:{expect.kind_of(v)}" for loc in x["wire"] for v in x["wire"][loc].values())), body_class(x), x["security"], bool(x["client"].get("auth")))
+                    run.ev.seen(sig)
+                for va, vb in (("sync_detailed", "asyncio_detailed"), ("sync", "asyncio")):
+                    if va in caps and vb in caps and caps[va] != caps[vb]:
+                        run.vd.violation("sync_async_differ", f"{a['module']}: {va} and {vb} sent different requests", dict(w, a=caps[va], b=caps[vb]))
+                    elif va in caps and vb in caps:
+                        run.ev.count("sync_async_pairs_equal")
+                if caps and not run.ev.samples:
+                    c = res[next(iter(caps))]["requests"][0]
+                    run.ev.sample({"operation": f"{x['method'].upper()} {x['path']}", "wire_args": x["wire"], "body": x.get("body"), "captured": {"url": c["url"], "headers": c["headers"][5:], "content_b64": c["content"][:120]}})
     run.vd.inconclusive_if(run.ev.counters.get("requests_checked", 0) < 300, "fewer than 300 requests reached the oracle")
     return run.finish()
 
